@@ -15,7 +15,7 @@ LEVEL = "exploration"
 RULE = ("random abstract programs (1-8 commands, 0-6 arguments; ints, decimals in every spelling, quoted strings with delimiters / "
         "quotes / escapes / non-ASCII, unquoted words, sentences, paths, URLs, lists nested <=3, tuples) x random renderings; plus "
         "single-token corruptions; distinct by (multiset of leaf value classes, layout features used, eol)")
-REQUIRED_COUNTERS = ["files_run_through_the_tool", "non_ascii_twin_files", "parses_compared", "corruptions_checked", "leaf_values_compared", "parser_reuse_cases", "files_loaded_through_the_program"]
+REQUIRED_COUNTERS = ["mixed_dialect_files", "files_run_through_the_tool", "non_ascii_twin_files", "parses_compared", "corruptions_checked", "leaf_values_compared", "parser_reuse_cases", "files_loaded_through_the_program"]
 ASSUMPTIONS = ["expected content of quoted strings = text after unescaping \\\\ \\\" \\' \\n \\t (as tests/test_parser.py fixes)",
                "expected unquoted text = the written words joined by their single blanks, trimmed",
                "don't-care: duplicate tuple keys, comments/newlines inside unquoted strings, bare True/False words, other backslash escapes"]
@@ -58,6 +58,12 @@ def cases(ctx):
         yield {"kind": "viaprogram", "prog": {"commands": cmds}, "rseed": rng.randrange(10 ** 9), "rawnl": False, "style": rng.choice(["wild", "canon"]), "v2": True}
     for i in range(ctx.n(40, 2000)):
         yield {"kind": "viatool", "rseed": rng.randrange(10 ** 9)}
+    # two quoted strings with nothing between them but blanks (a comma or colon is missing): malformed
+    for i in range(ctx.n(20, 600)):
+        yield {"kind": "adjacent", "rseed": rng.randrange(10 ** 9)}
+    # files mixing both dialects: the program holds the commands in the order in which they are written
+    for i in range(ctx.n(40, 2000)):
+        yield {"kind": "mixedorder", "rseed": rng.randrange(10 ** 9)}
     for i in range(ctx.n(1200, 80000)):
         # corruption of well-behaved programs (quoted strings / numbers / identifier words only, so that the base text parses)
         prog = syntax.gen_program(rng, max_cmds=3, max_args=3, ustr_classes=["word"], rich=False)
@@ -191,6 +197,55 @@ def run_viatool(ctx, case):
         ctx.fail("via-tool:value-differs:%s" % ("tab-in-a-value" if any("\t" in v for v in vals + [unq]) else "blanks-in-a-value"), {"got": repr(got)[:300], "want": repr(want)[:300], "text": text})
 
 
+def run_adjacent(ctx, case):
+    rng = random.Random(case["rseed"])
+    q1, q2 = rng.choice(['"', "'"]), rng.choice(['"', "'"])
+    gap = rng.choice([" ", "  ", "\n", " \n  ", "\t", " # c\n "])
+    a, b = rng.choice(["A", "Key", "x y", "1"]), rng.choice(["B", "Value", "z", "2"])
+    pair = "%s%s%s%s%s%s%s" % (q1, a, q1, gap, q2, b, q2)
+    text = rng.choice(['A = C(P = [%s, "C"])', "A = C(M = [%s])", "A = C(N = %s)", 'A = C(P = ["C", %s])', "A = C(M = [K: %s])", "READ(InFieldName = %s)"]) % pair
+    ctx.count("corruptions_checked")
+    ctx.feature(("adjacent", q1 + q2, gap.strip() == "", text[:12]))
+    tree, err = _parse(text)
+    if err is None:
+        ctx.fail("corrupt:adjacent-quoted-strings:accepted", {"text": text, "delivered": repr(syntax.strip_node(tree.commands[0].arguments[0].value))[:120] if tree and tree.commands and tree.commands[0].arguments else None})
+    elif not isinstance(err, SyntaxError):
+        ctx.fail("corrupt:adjacent-quoted-strings:raises-%s" % type(err).__name__, {"text": text})
+
+
+def run_mixedorder(ctx, case):
+    from mpilot.program import Program
+    rng = random.Random(case["rseed"])
+    n = rng.randint(2, 7)
+    lines, names = [], []
+    kinds = [rng.choice(["v3", "v2read", "v2name"]) for _ in range(n)]
+    if "v3" not in kinds:
+        kinds[0] = "v3"
+    if all(k == "v3" for k in kinds):
+        kinds[-1] = "v2read"
+    for i, k in enumerate(kinds):
+        if k == "v3":
+            lines.append("U%d = %s(V = %d)" % (i, rng.choice(["dif", "Union", "Sum_", "Copyfield"]), i))
+            names.append("U%d" % i)
+        elif k == "v2read":
+            lines.append('READ(InFileName = "nowhere%d.csv", InFieldName = F%d, NewFieldName = R%d)' % (i, i, i))
+            names.append("R%d" % i)
+        else:
+            lines.append('X%d = READ(InFileName = "nowhere%d.csv", InFieldName = G%d)' % (i, i, i))
+            names.append("X%d" % i)
+    text = "\n".join(lines)
+    ctx.count("files_loaded_through_the_program")
+    ctx.count("mixed_dialect_files")
+    ctx.feature(("mixedorder", tuple(kinds)[:5]))
+    try:
+        p = Program.from_source(text, libraries=("mpilot.libraries.eems.csv", "usercmds"))
+    except Exception as e:
+        ctx.fail("via-program:well-formed-file-rejected:%s:mixed-dialects" % type(e).__name__, {"text": text, "error": str(e)[:200]})
+        return
+    if list(p.commands) != names:
+        ctx.fail("via-program:mixed-dialects:commands-not-in-written-order", {"got": list(p.commands), "want": names, "text": text})
+
+
 def _flip_non_ascii(v):
     """The AST value with every non-ASCII character of its quoted strings replaced by its neighbour (code point with the lowest bit
     flipped): a different text of the same length that is the same once non-ASCII characters are dropped."""
@@ -319,6 +374,10 @@ def run_case(ctx, case):
         return run_viaprogram(ctx, case)
     if case["kind"] == "viatool":
         return run_viatool(ctx, case)
+    if case["kind"] == "adjacent":
+        return run_adjacent(ctx, case)
+    if case["kind"] == "mixedorder":
+        return run_mixedorder(ctx, case)
     text = case["text"]
     if case["kind"] == "corrupt":
         ctx.count("corruptions_checked")
